@@ -39,6 +39,11 @@ func HDisclose() {
 	which := nd_range(0, 1)
 	mod := mods[which]
 	tail := nd_string(n)
+	if vparam("abs") == 1 {
+		// the request spells out the module's own absolute directory (or a path that starts
+		// with it) after the module name: "m/srv/m/..", "m/srv/mm/" ...
+		tail = mod.Path + tail
+	}
 	for i := 0; i < len(tail); i++ {
 		vassume(tail[i] != '\n')
 		vassume(tail[i] != 0)
